@@ -246,7 +246,7 @@ def check_mean_grp(vals, valid, labels, ngroups, nodata, dtype, p, sub="mean_grp
         exp[:, m] = mean[:, None]
     exp32 = exp.astype(np.float32)
     tol = np.spacing(np.abs(exp32)).astype(np.float64)
-    bad = np.abs(out.astype(np.float64) - exp32.astype(np.float64)) > tol
+    bad = ~(np.abs(out.astype(np.float64) - exp32.astype(np.float64)) <= tol)
     for j in np.nonzero(bad.any(axis=1))[0][:5]:
         # exact rational reference for the reported case
         ref = []
@@ -494,6 +494,53 @@ def attr_histories(ctx):
     ctx.sample(sub, {"attr": "nodata", "values": ["<absent>", -9999, 0, 7], "depth": 3, "pixels": rows})
 
 
+def long_axes(ctx):
+    """Records longer than a 16-bit index can address (hourly series reach this in under four years): positions,
+    counters and member lists must not be held in the width of the label or data dtype."""
+    st = _stats()
+    sub = "long_axes"
+    for n in (32767, 32768, 32769, 40000, 70000):
+        t = np.arange(n)
+        base = ((t * 37) % 101 - 50).astype(np.int64)
+        valid = (t % 7 != 3) & ~((t >= n - 500) & (t < n - 440))
+        nd = -9999
+        vals = np.where(valid, base, nd)
+        g = (t % 12).astype("int16")
+        for dtype in ("int16", "float32", "int64"):
+            x = vals.astype(dtype)[None, :]
+            # mean_grp
+            out = np.asarray(st.mean_grp(x, g, 12, nd))[0].astype(np.float64)
+            exp = np.empty(n)
+            for grp in range(12):
+                m = g == grp
+                c = valid[m].sum()
+                exp[m] = base[m][valid[m]].sum() / c if c else nd
+            bad = ~(np.abs(out - exp.astype(np.float32).astype(np.float64)) <= np.spacing(np.abs(exp).astype(np.float32)).astype(np.float64))
+            ctx.count(sub, evaluations=1, states=1, nontrivial=1)
+            if bad.any():
+                j = int(np.nonzero(bad)[0][0])
+                ctx.violation(sub, {"kernel": "mean_grp", "n": n, "dtype": dtype}, {"kind": "long_axes"},
+                              f"mean_grp on a {dtype} record of {n} steps (12 interleaved groups): {int(bad.sum())} steps wrong, first at step {j}: {out[j]!r}, expected {exp[j]!r}")
+            if dtype == "int64" and n > 40000:
+                continue
+            # rolling_sum
+            w = 3
+            out = np.asarray(st.rolling_sum(x, w, nd))[0].astype(np.float64)
+            cs = np.concatenate([[0], np.cumsum(np.where(valid, base, 0))])
+            cc = np.concatenate([[0], np.cumsum(valid.astype(np.int64))])
+            s_ = (cs[w:] - cs[:-w]).astype(np.float64)
+            c_ = cc[w:] - cc[:-w]
+            o = out[w - 1:]
+            ok = ((c_ == w) & (o == s_)) | ((c_ == 0) & (o == nd)) | ((c_ > 0) & (c_ < w) & ((o == s_) | (o == nd)))
+            ok_head = (out[: w - 1] == nd).all()
+            ctx.count(sub, evaluations=1, states=1, nontrivial=1)
+            if not ok.all() or not ok_head:
+                j = int(np.nonzero(~ok)[0][0]) + w - 1 if not ok.all() else 0
+                ctx.violation(sub, {"kernel": "rolling_sum", "n": n, "dtype": dtype}, {"kind": "long_axes"},
+                              f"rolling_sum(window 3) on a {dtype} record of {n} steps: {int((~ok).sum())} positions wrong, first at {j}: {out[j]!r}")
+    ctx.sample(sub, {"lengths": [32767, 32768, 32769, 40000, 70000], "groups": 12, "window": 3, "dtypes": ["int16", "float32", "int64"]})
+
+
 # --------------------------------------------------------------------- entry points
 def run(ctx):
     letters = letters_for(ctx.seed)
@@ -526,6 +573,7 @@ def run(ctx):
     long_family(ctx)
     falsy_nodata(ctx)
     big_sentinels(ctx)
+    long_axes(ctx)
     attr_histories(ctx)
 
 
@@ -533,6 +581,9 @@ def replay(sub, case, p):
     kind = case["kind"]
     if kind == "attr_history":
         attr_histories(p)
+        return
+    if kind == "long_axes":
+        long_axes(p)
         return
     if kind == "mg_float":
         _mean_grp_task((case["n"], [3, 10], [-9999, 255, 4], ["float32"], 3), p)
